@@ -51,6 +51,11 @@
 #include <set>
 using namespace SymEngine;
 typedef std::complex<double> cd;
+// relative residual accepted by the numeric (testing) part of the oracle:
+//   |p(z)| <= NUM_TOL * sum_i |c_i| |z|^i.
+// Nested radicals evaluated by eval_complex_double lose up to ~1e-9 (observed on
+// x^4 - 3/4 x^3 + 2 x^2 - 3/4 x - 1/4: ratio 1.2e-9); wrong formulas give residuals of order 1e-1.
+static const double NUM_TOL = 1e-7;
 
 // ---------------------------------------------------------------- exact rationals (raw GMP)
 struct Q {
@@ -389,7 +394,7 @@ static std::string oracle_poly(const Poly &p, const Dom &d, const RCP<const Set>
             if (!decided) {
                 double sc;
                 cd r = pevald(p, mem.z, &sc);
-                if (!(std::abs(r) <= 1e-9 * (sc + 1e-300)))
+                if (!(std::abs(r) <= NUM_TOL * (sc + 1e-300)))
                     return "nonroot-numeric:residual " + std::to_string(std::abs(r)) + " at " + mem.e->__str__().substr(0, 120);
             }
             int dm = dom_member(d, mem.z);
@@ -548,8 +553,8 @@ static std::string run_case(const std::string &line)
                 for (auto &m : ms) {
                     double sn, sd;
                     cd rn = pevald(N, m.z, &sn), rd = pevald(D, m.z, &sd);
-                    bool pole = m.exact ? peval(D, m.q).zero() : std::abs(rd) <= 1e-9 * (sd + 1e-300);
-                    bool root = m.exact ? peval(N, m.q).zero() : std::abs(rn) <= 1e-9 * (sn + 1e-300);
+                    bool pole = m.exact ? peval(D, m.q).zero() : std::abs(rd) <= NUM_TOL * (sd + 1e-300);
+                    bool root = m.exact ? peval(N, m.q).zero() : std::abs(rn) <= NUM_TOL * (sn + 1e-300);
                     if (pole) {
                         // is the pole, as a tree, a member of the library's own solve(den)?  Then
                         // the set difference was not taken at all; otherwise the denominator's
